@@ -20,7 +20,7 @@ MANIFEST = {
     "design_ref": "DESIGN.md 5 (C12)",
 }
 
-BOUNDS = {"quick": {"vertices": 3, "links": 2}, "thorough": {"vertices": 3, "links": 2}}
+BOUNDS = {"quick": {"vertices": 3, "links": 2}, "thorough": {"vertices": 3, "links": "2-3"}}
 TIME_BUDGET = {"quick": 400, "thorough": 1200}
 STUBS = ["types.MappingProxyType -> read-only view of the given dict (aliasing preserved)"]
 ASSUMPTIONS = ["one mutation per handed-out container", "pool bound as stated"]
@@ -36,6 +36,9 @@ def configs(tier):
     out = []
     for a in ACCESSORS:
         out.append({"kind": "out", "accessor": a})
+    if tier != "quick":
+        for a in ("neighbors", "neighbors_hit", "find_links", "bft"):
+            out.append({"kind": "out", "accessor": a, "links3": True})
     out.append({"kind": "whitelist"})
     for i in INPUTS:
         out.append({"kind": "in", "input": i})
@@ -266,7 +269,7 @@ same = ([observe(o) for o in built] == before) and (hasattr(n, "extra") == extra
 
 def scenario(B, p):
     verts = make_vertices(B, 3)
-    links = make_links(B, ["DE", "UE"])
+    links = make_links(B, ["DE", "UE", "DE"] if p.get("links3") else ["DE", "UE"])
     if p["kind"] == "whitelist":
         out = B.run(PROG_WL, {"step": B.choice("step", 4), "start": B.choice("start", 3)})
         B.reach("whitelist")
@@ -274,7 +277,7 @@ def scenario(B, p):
         B.prove("the handed-out whitelist rejects assignment at both levels", out["blocked"] == 2)
         B.prove("the laws are unchanged after the rejected assignments", out["out_ok"])
         return
-    symbolic_assoc_state(B, verts, links, 2, 4, two_ended_wellformed=True)
+    symbolic_assoc_state(B, verts, links, len(links), len(links) + 2, two_ended_wellformed=True)
     for l in links:
         for e in B.items(B.get_field(l, "_vertices")):
             B.assume(B.not_(B.is_(e, None)), "ends are vertices")
